@@ -45,6 +45,7 @@ type Client struct {
 	IsReply func(mocrelay.ServerMsg) bool
 	replies int
 
+	dyn     chan Op // ops injected by the driver after the static script (see Do)
 	paused  atomic.Bool
 	resume  chan struct{}
 	kick    chan struct{}
@@ -70,7 +71,7 @@ func (sim *Sim) NewClient(parent context.Context, name string, script []Op) *Cli
 		Recv: make(chan mocrelay.ClientMsg), Send: make(chan mocrelay.ServerMsg),
 		Ctx: ctx, Cancel: cancel, Script: script,
 		resume: make(chan struct{}, 1), kick: make(chan struct{}, 1), stop: make(chan struct{}),
-		gotCh: make(chan struct{}, 1),
+		gotCh: make(chan struct{}, 1), dyn: make(chan Op, 64),
 	}
 	sim.Cleanup(func() { c.Cancel(); c.Stop() })
 	return c
@@ -122,53 +123,77 @@ func (c *Client) reader() {
 }
 
 func (c *Client) writer() {
-	defer c.ScriptDone.Store(true)
 	for i, op := range c.Script {
 		verifsim.Yield(c.Name + ".wr")
-		c.Sim.Logf("%s op[%d] %s", c.Name, i, op.Kind)
-		switch op.Kind {
-		case "send":
-			if c.recvClosed {
-				continue
-			}
-			m := op.Msg.Client()
-			s := &Sent{Idx: i, Msg: m, Invoke: c.Sim.Stamp()}
-			c.Sent = append(c.Sent, s)
-			select {
-			case c.Recv <- m:
-				s.Accepted = c.Sim.Stamp()
-			case <-c.stop:
-				return
-			}
-		case "cancel":
-			c.CancelStamp = c.Sim.Stamp()
-			c.Cancel()
-		case "closerecv":
-			if !c.recvClosed {
-				c.recvClosed = true
-				c.CloseStamp = c.Sim.Stamp()
-				close(c.Recv)
-			}
-		case "pause":
-			c.paused.Store(true)
-			select {
-			case c.kick <- struct{}{}:
-			default:
-			}
-		case "resume":
-			c.Resume()
-		case "await":
-			c.waiting.Store(int64(op.N))
-			for c.replies < op.N {
-				select {
-				case <-c.gotCh:
-				case <-c.stop:
-					return
-				}
-			}
-			c.waiting.Store(0)
+		if !c.exec(i, op) {
+			c.ScriptDone.Store(true)
+			return
 		}
 	}
+	c.ScriptDone.Store(true)
+	for i := len(c.Script); ; i++ {
+		var op Op
+		select {
+		case op = <-c.dyn:
+		case <-c.stop:
+			return
+		}
+		verifsim.Yield(c.Name + ".wr")
+		if !c.exec(i, op) {
+			return
+		}
+	}
+}
+
+// Do hands one more op to the writer actor (driver only); the op is executed
+// during the following Drive.
+func (c *Client) Do(op Op) { c.dyn <- op }
+
+func (c *Client) exec(i int, op Op) (goOn bool) {
+	c.Sim.Logf("%s op[%d] %s", c.Name, i, op.Kind)
+	switch op.Kind {
+	case "send":
+		if c.recvClosed {
+			return true
+		}
+		m := op.Msg.Client()
+		s := &Sent{Idx: i, Msg: m, Invoke: c.Sim.Stamp()}
+		c.Sent = append(c.Sent, s)
+		select {
+		case c.Recv <- m:
+			s.Accepted = c.Sim.Stamp()
+		case <-c.stop:
+			return false
+		}
+	case "cancel":
+		c.CancelStamp = c.Sim.Stamp()
+		c.Cancel()
+	case "closerecv":
+		if !c.recvClosed {
+			c.recvClosed = true
+			c.CloseStamp = c.Sim.Stamp()
+			close(c.Recv)
+		}
+	case "pause":
+		c.paused.Store(true)
+		select {
+		case c.kick <- struct{}{}:
+		default:
+		}
+	case "resume":
+		c.Resume()
+	case "await":
+		c.waiting.Store(int64(op.N))
+		for c.replies < op.N {
+			select {
+			case <-c.gotCh:
+			case <-c.stop:
+				return false
+			}
+		}
+		c.waiting.Store(0)
+	}
+	return true
 }
 
 // Paused reports whether the reader is currently stalled.
